@@ -104,3 +104,6 @@ mod state;
 mod storage;
 mod telemetry;
 mod writer;
+
+#[cfg(metrics_verif)]
+pub mod verif_driver;
